@@ -304,7 +304,9 @@ impl SplitBuf {
         SplitBuf { data, pos: 0, splits, fills: 0, eof_polls: 0, interrupt_at: None, idle_fills: 0 }
     }
     fn end(&self) -> usize {
-        self.splits.iter().copied().find(|s| *s > self.pos).unwrap_or(self.data.len()).min(self.data.len())
+        // splits are sorted: first one beyond the current position
+        let i = self.splits.partition_point(|s| *s <= self.pos);
+        self.splits.get(i).copied().unwrap_or(self.data.len()).min(self.data.len())
     }
 }
 
